@@ -28,8 +28,30 @@ fn cell_case(out: &mut Out, depth: u8, h: u64, tag: &str) {
   out.stat(&format!("C16:c2v:{}", tag));
   let inp = format!("depth={} hash={} centre=({}, {}) class={}", depth, h, c.0, c.1, tag);
   match b {
-    None => out.violation("C16:c2v:panic", inp, "a bound".into(), "panic".into()),
-    Some(b) => { let t = true_c2v(depth, h); if !(b >= t * (1.0 - 1e-12) - 1e-15) { out.violation("C16:c2v:not-a-bound", inp, format!(">= {:e}", t), format!("{:e}", b)); } }
+    None => out.violation("C16:c2v:panic", inp.clone(), "a bound".into(), "panic".into()),
+    Some(b) => { let t = true_c2v(depth, h); if !(b >= t * (1.0 - 1e-12) - 1e-15) { out.violation("C16:c2v:not-a-bound", inp.clone(), format!(">= {:e}", t), format!("{:e}", b)); } }
+  }
+  // the same claim at positions of the cell other than its centre ("the cell at that position")
+  if depth >= 1 {
+    let t = true_c2v(depth, h);
+    for &(dx, dy) in &[(0.1f64, 0.1f64), (0.9, 0.1), (0.1, 0.9), (0.9, 0.9), (0.5, 0.2), (0.2, 0.5), (0.8, 0.5), (0.5, 0.8)] {
+      let q = match catch(|| l.sph_coo(h, dx, dy)) { Some(q) => q, None => continue };
+      if catch(|| l.hash(q.0, q.1)) != Some(h) { continue; }   // rounding moved it out of the cell: not this cell's claim
+      let bq = catch(|| largest_center_to_vertex_distance(depth, q.0, q.1));
+      out.rec(&format!("c2v {} {} {}", depth, fbits(q.0), fbits(q.1)), &optf(bq));
+      out.evaluations += 1;
+      out.stat("C16:c2v:off-centre");
+      if let Some(bq) = bq {
+        if !(bq >= t * (1.0 - 1e-12) - 1e-15) {
+          // finding F23: cells centred on the transition latitude, position on their equatorial side
+          let on_transition_ring = (c.1.abs() - TRANSITION_LATITUDE).abs() < 1e-12;
+          let kind = if on_transition_ring && q.1.abs() < TRANSITION_LATITUDE { "C16:c2v:not-a-bound:off-centre:transition-ring-equatorial-side" }
+                     else if c.1.abs() >= TRANSITION_LATITUDE { "C16:c2v:not-a-bound:off-centre:polar-cap" } else { "C16:c2v:not-a-bound:off-centre" };
+          out.violation(kind, format!("{} position=({}, {}) offsets=({}, {})", inp, q.0, q.1, dx, dy), format!(">= {:e}", t), format!("{:e}", bq));
+          break;
+        }
+      }
+    }
   }
 }
 
